@@ -21,7 +21,8 @@ from sim.core.seams import Seams, SimClock
 from sim.core.hoststub import HostStub, SITES
 from sim.props.c02 import wrap_kind
 
-SECRET_NAMES = ['secret', 'secret_key', 'my_secret', 'db_secret_pw', 'apisecretkey', 'x.secret.y', 'secret-with-dash', 'a secret <b>']
+SECRET_NAMES = ['secret', 'secret_key', 'my_secret', 'db_secret_pw', 'apisecretkey', 'x.secret.y', 'secret-with-dash', 'a secret <b>',
+                'n' * 66 + '_secret', 'very_long_' * 9 + 'secret_at_the_end', 'secret' + '_padding' * 12]
 PLAIN_NAMES = ['token_ttl', 'db_url', 'debug', 'name', 'greeting', 'limits', 'weird <i>name</i>', 'SECRET_UPPER_IS_NOT_secretive'.replace('secret', 'zzz')]
 VALUE_KINDS = ['str', 'bytes', 'number', 'list', 'dict', 'object', 'nested', 'longstr']
 COOKIE_KEY = b'C00KIE-SIGNING-KEY-7781'
@@ -34,7 +35,11 @@ def _host_mws():
     from clastic.middleware import GetParamMiddleware, HTTPCacheMiddleware, SimpleProfileMiddleware
     from clastic.middleware.form import PostDataMiddleware
     # any middleware a host may carry -- including ones of the very types the meta application uses itself
-    return {'simplectx': lambda: SimpleContextProcessor(), 'simplectx-named': lambda: SimpleContextProcessor('host_value'),
+    class BadReprMiddleware(SimpleProfileMiddleware):
+        """a host middleware whose repr() raises: the middleware section cannot be computed"""
+        def __repr__(self):
+            raise RuntimeError('no repr for you')
+    return {'badrepr-mw': lambda: BadReprMiddleware(), 'simplectx': lambda: SimpleContextProcessor(), 'simplectx-named': lambda: SimpleContextProcessor('host_value'),
             'ctxproc': lambda: ContextProcessor(defaults={'host_default': 1}), 'scriptroot-other': lambda: ScriptRootMiddleware('host_root'),
             'getparam': lambda: GetParamMiddleware(['hq']), 'postdata': lambda: PostDataMiddleware(['hp']),
             'cache': lambda: HTTPCacheMiddleware(), 'profile': lambda: SimpleProfileMiddleware()}
@@ -106,7 +111,7 @@ class C18(Check):
     level_text = ('Single host-call faults are enumerated completely (every call site x every documented exception and unusual '
                   'value, both views) on a fixed host; host applications and multi-fault plans are sampled.')
     level_note = 'Trusted: the catalogue of what each host call can raise/return (sim/core/hoststub.py).'
-    required_probes = ('host-shares-middleware-type-with-meta', 'secret-redacted-html', 'secret-redacted-json', 'fault-fired-page-200', 'all-calls-failing', 'depth-2',
+    required_probes = ('sibling-section-cannot-be-computed', 'host-shares-middleware-type-with-meta', 'secret-redacted-html', 'secret-redacted-json', 'fault-fired-page-200', 'all-calls-failing', 'depth-2',
                        'plain-visible', 'bad-repr-section-inline', 'cookie-mw-present')
 
     # ---- generation --------------------------------------------------------
@@ -241,6 +246,8 @@ class C18(Check):
                 res.probe('cookie-mw-present')
             if set(cfg.get('host_mws', [])) & set(['simplectx', 'simplectx-named']):
                 res.probe('host-shares-middleware-type-with-meta')
+            if 'badrepr-mw' in cfg.get('host_mws', []):
+                res.probe('sibling-section-cannot-be-computed')
             if cfg['depth'] == 2:
                 res.probe('depth-2')
             for step, op in enumerate(plan['ops']):
